@@ -119,8 +119,8 @@ impl StreamFilter {
 pub fn decode_nibble(c: u8) -> Option<u8> {
     match c {
         n @ b'0' ..= b'9' => Some(n - b'0'),
-        a @ b'a' ..= b'h' => Some(a - b'a' + 0xa),
-        a @ b'A' ..= b'H' => Some(a - b'A' + 0xA),
+        a @ b'a' ..= b'f' => Some(a - b'a' + 0xa),
+        a @ b'A' ..= b'F' => Some(a - b'A' + 0xA),
         _ => None
     }
 }
@@ -295,7 +295,7 @@ pub fn flate_decode(data: &[u8], params: &LZWFlateParams) -> Result<Vec<u8>> {
     // Then unfilter (PNG)
     // For this, take the old out as input, and write output to out
 
-    if predictor > 10 {
+    if predictor >= 10 {
         let inp = decoded; // input buffer
         let rows = inp.len() / (stride+1);
         
@@ -413,11 +413,11 @@ pub fn run_length_decode(data: &[u8]) -> Result<Vec<u8>> {
             let start = c + 1;
             let end = start + length as usize + 1;
             // copy _following_ length + 1 bytes literally
-            buf.extend_from_slice(&d[start..end]);
+            buf.extend_from_slice(d.get(start..end).ok_or(PdfError::EOF)?);
             c = end; // move cursor to next run
         } else if length >= 129 {
             let copy = 257 - length as usize; // copy 2 - 128 times
-            let b = d[c + 1]; // copied byte
+            let b = *d.get(c + 1).ok_or(PdfError::EOF)?; // copied byte
             buf.extend(std::iter::repeat(b).take(copy));
             c += 2; // move cursor to next run
         } else {
